@@ -44,13 +44,23 @@ def run(ctx):
             for b in (bulks if not q else [rnd.choice(bulks)]):
                 S.append(scenario(list(cells), nb, api, b, proto=rnd.choice(["v2c"] * 6 + ["v3a_md5", "v3p_sha"]),
                                   cut=rnd.choice(["full", "one_row", "minus_one", "row_plus_one"])))
+    # the same fetches with the library's loggers at DEBUG (a configuration, not an input): nothing observable may change
+    for sc in rnd.sample(S, 60 if q else 600):
+        S.append(dict(sc, debuglog=True))
+    # table() and bulktable() of the same table running concurrently on one client
+    for cells in rnd.sample(sets, 40 if q else 400) + [tuple(allcells)]:
+        if not cells:
+            continue
+        sc = scenario(list(cells), rnd.choice(nb_choices), "pair", rnd.choice([1, 2, 4, 10]))
+        sc["roots"] = [ENTRY]
+        S.append(dict(sc, yields=rnd.choice([1, 2, 3])))
     T = drv_walk.run_all(S)
     ctx.evaluations += len(T)
     verdicts = ctx.validate("Trace_Table", T, chunk=3000)
     ctx.judge(T, verdicts, signature=sig, nontrivial=lambda tr, v: json.dumps([tr["scenario"]["db"], tr["scenario"]["api"], tr["scenario"]["bulk"]]) if len(tr["scenario"]["db"]) >= 2 else None)
     ctx.rule = ("tables of 1..3 columns x index suffixes of 1..%d components (components 0 and 10, shared prefixes) with sparse columns, 0..n rows and neighbouring "
                 "objects before / after the table (incl. a sibling arc whose decimal spelling extends the table's: .2 / .20), fetched with table(entry OID), "
-                "bulktable(table OID) at bulk sizes 1..10 under four agent truncation policies, raw and pythonic; every variant is compared with the rows the "
+                "bulktable(table OID) at bulk sizes 1..10 under four agent truncation policies, raw and pythonic, a sample also with DEBUG logging on, and table() / bulktable() / table() of one table running concurrently on one client; every variant is compared with the rows the "
                 "database defines, hence with each other; non-trivial = distinct database with >= 2 objects") % (2 if q else 4)
     ctx.assumptions = ["per SMI the table node has exactly one child (the entry): no instance lives directly under the table OID",
                        "table() is addressed by the entry OID and bulktable() by the table OID, as their documentation and tests prescribe"]
@@ -58,5 +68,7 @@ def run(ctx):
 
 def replay(ctx, path):
     sc = json.load(open(path))["trace"]["scenario"]
+    if sc.get("pair"):
+        sc = dict(sc, api="pair")
     T = drv_walk.run_all([sc])
     ctx.judge(T, ctx.validate("Trace_Table", T), signature=sig)
